@@ -2,6 +2,7 @@
 across the process boundary, and with the disk / task shuffles."""
 from __future__ import annotations
 
+import itertools
 import os
 import shutil
 from collections import Counter
@@ -37,10 +38,11 @@ META = {
 
 TRANSFORMS = ("map", "filter", "remove", "map_partitions", "pair_pluck", "starmap", "flatten", "repartition",
               "zip", "concat", "accumulate", "concat", "repartition", "map", "zip_self", "map_self",
-              "concat_other", "concat_plain", "concat_plain")
+              "concat_other", "concat_plain", "concat_plain", "accumulate_initial")
 TERMINALS = ("identity", "distinct", "frequencies", "topk", "fold", "reduction", "foldby", "groupby_disk",
              "groupby_tasks", "join", "product", "take", "sum", "max", "min", "mean", "var", "std", "count",
-             "any", "all", "product", "join", "foldby", "product_self", "join_self")
+             "any", "all", "product", "join", "foldby", "product_self", "join_self", "distinct_key", "topk_key",
+             "take_some", "groupby_disk", "groupby_tasks")
 
 
 GC_EACH_RUN = True  # see sim/worker.run_tape
@@ -163,6 +165,10 @@ def run_one(tape, cfg):
                 b = db.concat([b, b.map(bf.add1)])
                 ref = ref + [x + 1 for x in ref]
                 ref_parts = None
+            elif st == "accumulate_initial":
+                b = b.accumulate(bf.add, initial=10)
+                ref = list(itertools.accumulate(ref, bf.add, initial=10))
+                ref_parts = None
             elif st == "accumulate":
                 b = b.accumulate(bf.add)
                 acc, s = [], None
@@ -177,6 +183,17 @@ def run_one(tape, cfg):
             res, want = b, ref
         elif term == "distinct":
             res, want, mode = b.distinct(), sorted(set(ref)), "sorted"
+        elif term == "distinct_key":
+            # one representative per key; which one is not promised
+            res, want, mode = b.distinct(key=bf.mod3), sorted({x % 3 for x in ref}), "distinct_key"
+        elif term == "topk_key":
+            res, want = b.topk(k, key=bf.neg, **kw), sorted(ref)[:k]
+        elif term == "take_some":
+            if ref_parts is None:
+                res, want, mode = None, ref[:k], "take"
+            else:
+                take_n = 1 + tape.draw(len(ref_parts), "take_n")
+                res, want, mode = None, [x for p in ref_parts[:take_n] for x in p][:k], "take"
         elif term == "frequencies":
             res, want, mode = b.frequencies(**kw), dict(Counter(ref)), "dict"
         elif term == "topk":
@@ -247,12 +264,19 @@ def run_one(tape, cfg):
     spill = os.path.abspath("spill")
     os.makedirs(spill, exist_ok=True)
     runs, digests, values = [], [], []
+    if "take_n" not in locals():
+        take_n = -1
 
     def norm(v):
         if mode == "list" or mode == "take":
             return list(v)
         if mode == "sorted":
             return sorted(v)
+        if mode == "distinct_key":
+            v = list(v)
+            if any(x not in ref for x in v) or len({x % 3 for x in v}) != len(v):
+                return ["invalid", v]
+            return sorted(x % 3 for x in v)
         if mode == "dict":
             return dict(v)
         if mode == "groups":
@@ -270,7 +294,7 @@ def run_one(tape, cfg):
                     with r:
                         if mode == "take":
                             with dask.config.set(scheduler=r.get):
-                                v = b.take(k, npartitions=-1, compute=True, warn=False)
+                                v = b.take(k, npartitions=take_n, compute=True, warn=False)
                         else:
                             v = res.compute(scheduler=r.get)
                 except Exception as e:  # noqa: BLE001
@@ -289,10 +313,11 @@ def run_one(tape, cfg):
                 if r.entry.startswith("mp"):
                     out.probe("mp_boundary")
                 ok = (abs(values[-1] - want) <= 1e-9 * max(1.0, abs(want))) if mode == "float" \
-                    else values[-1] == norm(want) if mode != "scalar" else values[-1] == want
+                    else values[-1] == want if mode in ("scalar", "distinct_key") else values[-1] == norm(want)
                 if not ok:
                     out.violate("differs_from_python",
-                                f"{wl} on {r.describe()}: dask gave {values[-1]!r}, plain Python {norm(want)!r}",
+                                f"{wl} on {r.describe()}: dask gave {values[-1]!r}, plain Python "
+                                f"{want if mode == 'distinct_key' else norm(want)!r}",
                                 terminal=term, entry=r.entry)
                     break
     finally:
